@@ -49,9 +49,12 @@ class Val:
     objs: FrozenSet[Obj] = frozenset()
     reads: FrozenSet[str] = frozenset()
     strs: FrozenSet[str] = frozenset()  # string constants the value may be (for getattr(self, name) through a parameter)
+    # the literal True / False this value IS (a flag passed to a shared helper: `weighted=True`): lets a conditional on
+    # the parameter take the one branch instead of joining both
+    flag: Optional[bool] = None
 
     def __or__(self, other: "Val") -> "Val":
-        return Val(self.objs | other.objs, self.reads | other.reads, self.strs | other.strs)
+        return Val(self.objs | other.objs, self.reads | other.reads, self.strs | other.strs, self.flag if self.flag == other.flag else None)
 
     def data(self) -> "Val":
         return Val(frozenset(), self.reads)
@@ -110,8 +113,12 @@ class Flow:
             fv = obj.field(name)
             if fv is not None:
                 return fv
-            if self.repo.const_lookup(ci, name) is not None:
-                return BOT  # class-level constant
+            c = self.repo.const_lookup(ci, name)
+            if c is not None:
+                # class-level constant; a literal string (`_orientation = "row"`) is carried: it may name a member
+                if isinstance(c, ast.Constant) and isinstance(c.value, str):
+                    return Val(frozenset(), frozenset(), frozenset([c.value]))
+                return BOT
             # unbound field of an externally created object: fall back on its type
             ts = self.types.field_type(ci, name)
             if ts:
@@ -202,6 +209,8 @@ class Flow:
         if isinstance(e, ast.Constant):
             if isinstance(e.value, str) and e.value.isidentifier():
                 return Val(frozenset(), frozenset(), frozenset([e.value]))
+            if isinstance(e.value, bool):
+                return Val(frozenset(), frozenset(), frozenset(), e.value)
             return BOT
         if isinstance(e, ast.Name):
             if e.id in env:
@@ -249,7 +258,15 @@ class Flow:
             objs = self._elem_objs(base.objs)
             return Val(objs, base.reads | idx.reads)
         if isinstance(e, ast.IfExp):
-            return self.eval(e.test, obj, m, env).data() | self.eval(e.body, obj, m, env) | self.eval(e.orelse, obj, m, env)
+            t = self.eval(e.test, obj, m, env)
+            neg = False
+            te = e.test
+            while isinstance(te, ast.UnaryOp) and isinstance(te.op, ast.Not):
+                te, neg = te.operand, not neg
+            tv = self.eval(te, obj, m, env) if neg else t
+            if tv.flag is not None and not tv.objs and not tv.reads:
+                return self.eval(e.body if (tv.flag != neg) else e.orelse, obj, m, env)
+            return t.data() | self.eval(e.body, obj, m, env) | self.eval(e.orelse, obj, m, env)
         if isinstance(e, (ast.GeneratorExp, ast.ListComp, ast.SetComp, ast.DictComp)):
             env2 = dict(env)
             acc = BOT
@@ -270,7 +287,19 @@ class Flow:
         if isinstance(e, ast.Starred):
             return self.eval(e.value, obj, m, env)
         if isinstance(e, ast.JoinedStr):
-            return BOT
+            # f"{self._orientation}_weighted_bases": the strings it may be, when every part is a known string
+            acc_strs = [""]
+            for part in e.values:
+                if isinstance(part, ast.Constant) and isinstance(part.value, str):
+                    opts = [part.value]
+                elif isinstance(part, ast.FormattedValue) and part.conversion == -1 and part.format_spec is None:
+                    opts = sorted(self.eval(part.value, obj, m, env).strs)
+                else:
+                    opts = []
+                if not opts or len(acc_strs) * len(opts) > 16:
+                    return BOT
+                acc_strs = [a + o for a in acc_strs for o in opts]
+            return Val(frozenset(), frozenset(), frozenset(acc_strs))
         # generic: union over child expressions
         acc = BOT
         for child in ast.iter_child_nodes(e):
@@ -400,6 +429,10 @@ class Flow:
             acc = BOT
             for a in f.args:
                 acc = acc | self.eval(a, obj, m, env).data()
+            # a class-valued HELPER of the class (`cls._counts_cls(rows_dimension, ca_as_0th)`): what its own conditionals
+            # read (the dimension type of an argument) decides the class as well
+            if isinstance(f.func, ast.Attribute) and isinstance(f.func.value, ast.Name) and f.func.value.id in ("self", "cls"):
+                acc = acc | self.eval(f, obj, m, env).data()
             return acc
         return BOT
 
